@@ -1507,6 +1507,43 @@ def search_generators(ctx):
             lambda o, w: np.asarray(o).shape == (50, 3) and np.all(np.asarray(o) >= 0) and np.all(np.asarray(o)[:, 0] <= np.pi) and np.all(np.asarray(o)[:, 1:] <= 2 * np.pi),
             "angles outside [0,pi] x [0,2pi)^2")
         seeds_ok("uniform_sampling_U3", "uniform_sampling_U3(5, seed={seed})", s)
+    # seed sweep: every small integer seed (and a few large ones) is honoured by every generator
+    sweep = list(range(48)) + [2**31 - 1, 2**32, 10**9 + 7, 2**63 - 1]
+    templates = {
+        "random_gaussian_matrix": "random_gaussian_matrix(3, seed={seed})",
+        "random_hermitian": "random_hermitian(3, seed={seed})",
+        "random_unitary:haar": "random_unitary(3, 'haar', seed={seed})",
+        "random_unitary:None": "random_unitary(3, seed={seed})",
+        "random_statevector": "random_statevector(5, seed={seed})",
+        "random_density_matrix": "random_density_matrix(3, seed={seed})",
+        "random_density_matrix:bures": "random_density_matrix(4, metric='bures', seed={seed})",
+        "random_stochastic_matrix": "random_stochastic_matrix(3, seed={seed})",
+        "random_quantum_channel": "random_quantum_channel(2, measure='bcsz', seed={seed})",
+        "random_clifford": "random_clifford(2, return_circuit=False, seed={seed})",
+        "random_pauli": "random_pauli(2, 3, return_circuit=False, seed={seed})",
+        "random_pauli_hamiltonian": "random_pauli_hamiltonian(1, seed={seed})[0]",
+        "uniform_sampling_U3": "uniform_sampling_U3(2, seed={seed})",
+    }
+    for key, template in templates.items():
+        prev = None
+        for k in sweep:
+            ctx.case(("seed-sweep", key, k))
+            try:
+                a, _ = run(template.format(seed=k))
+                b, _ = run(template.format(seed=k))
+            except Exception as e:  # noqa: BLE001
+                bad(key + ":not-reproducible", f"{template.format(seed=k)} raises {type(e).__name__}: {e}", template.format(seed=k), "")
+                break
+            fa, fb = flat(a), flat(b)
+            if not np.array_equal(fa, fb):
+                bad(key + ":not-reproducible", f"{template}: two calls with seed={k} differ", template.format(seed=k),
+                    f"out2 = {template.format(seed=k)}\nassert np.array_equal(np.asarray(out).reshape(-1), np.asarray(out2).reshape(-1))")
+                break
+            if prev is not None and key not in ("random_pauli", "random_clifford") and np.array_equal(fa, prev):
+                bad(key + ":seed-ignored", f"{template}: seeds {k} and the previous one give the same object", template.format(seed=k), "raise SystemExit(1)")
+                break
+            prev = fa
+    ctx.stat("generator_seed_sweep", len(sweep) * len(templates))
     # invalid seeds are refused
     for call in ("random_unitary(2, seed='a')", "random_statevector(2, seed=1.5)", "random_density_matrix(2, seed=[1])", "random_clifford(1, seed='x')"):
         ctx.case(("bad-seed", call))
